@@ -318,6 +318,7 @@ class SrvExec(Exec):
                 break
             self.server = server
             gather = server._gather_thread
+            backlog_at_enter = len(server._uid_to_futures)
 
             def caller(k, specs, res=res):
                 out = []
@@ -356,7 +357,7 @@ class SrvExec(Exec):
             if cfg.get('late_call') is not None:
                 # one more request after everything else, with an unbounded deadline
                 res['late'] = [self.one_call(server, [cfg['late_call'], 1000, False])]
-            info = dict(enter_exc=None, gather_alive=gather.is_alive())
+            info = dict(enter_exc=None, gather_alive=gather.is_alive(), backlog_at_enter=backlog_at_enter)
             if cfg.get('drain_before_exit', True):
                 # let the results of abandoned requests emerge: an idle server must have backlog 0
                 s.block(lambda: not self.waiting and len(server._uid_to_futures) == 0, 50.0, on='idle-wait')
@@ -432,6 +433,12 @@ class SrvExec(Exec):
             if 'shutdown' in orc or 'timeouts' in orc:
                 if info['gather_alive'] is False:
                     return ('gather-thread-dead', f'gather thread died before shutdown: {r.thread_excs} {info}')
+            if 'shutdown' in orc and info.get('backlog_at_enter'):
+                return ('stale-ledger-entries-at-enter', f'the server was entered again with {info["backlog_at_enter"]} request(s) '
+                        'of the previous round still in its ledger (they occupy slots for ever)')
+            if 'shutdown' in orc and info.get('loop_shutdown_took', 0) > 60:
+                return ('event-loop-shutdown-stalls', f'after the server was left, asyncio.run() needed {info["loop_shutdown_took"]:.1f} '
+                        'virtual seconds to finalize the abandoned stream (its feeder task sat in a wait that nothing satisfies)')
             if 'shutdown' in orc and info.get('close_after_exit', 0) > 60:
                 return ('abandoned-stream-close-stalls-after-exit',
                         f'closing the abandoned stream after Server.__exit__ took {info["close_after_exit"]:.1f} virtual seconds '
@@ -566,6 +573,7 @@ class ASrvExec(SrvExec):
                     break
                 self.server = server
                 gather = server._gather_thread
+                backlog_at_enter = len(server._uid_to_futures)
 
                 async def caller(k, specs):
                     out = []
@@ -586,7 +594,10 @@ class ASrvExec(SrvExec):
                             out.append((x, norm_val(y)))
                             if st_cfg.get('stop_after') is not None and len(out) >= st_cfg['stop_after']:
                                 break
-                        await it.aclose()
+                        if st_cfg.get('close') == 'after_exit':
+                            self.open_streams.append(it)
+                        else:
+                            await it.aclose()
                         out.append('END')
                     except Exception as e:
                         out.append(('RAISED', norm_exc(e)))
@@ -598,18 +609,33 @@ class ASrvExec(SrvExec):
                 await asyncio.gather(*tasks)
                 if cfg.get('late_call') is not None:
                     res['late'] = [await self.one_acall(server, [cfg['late_call'], 1000, False])]
-                info = dict(enter_exc=None, gather_alive=gather.is_alive())
-                t_end = s.now + 50.0
-                while (self.waiting or len(server._uid_to_futures)) and s.now < t_end:
-                    await asyncio.sleep(0.5)
-                info['backlog'] = len(server._uid_to_futures)
+                info = dict(enter_exc=None, gather_alive=gather.is_alive(), backlog_at_enter=backlog_at_enter)
+                if cfg.get('drain_before_exit', True):
+                    t_end = s.now + 50.0
+                    while (self.waiting or len(server._uid_to_futures)) and s.now < t_end:
+                        await asyncio.sleep(0.5)
+                info['backlog'] = len(server._uid_to_futures) if cfg.get('drain_before_exit', True) else 0
                 await server.__aexit__(None, None, None)
                 self.server = None
+                for it in self.open_streams:
+                    tc = s.now
+                    await it.aclose()
+                    info['close_after_exit'] = max(info.get('close_after_exit', 0), s.now - tc)
+                self.open_streams = []
                 info['alive'] = self.live()
                 results.append(res)
                 rounds_info.append(info)
 
-        asyncio.run(main())
+        t_main = [None]
+
+        async def timed_main():
+            await main()
+            t_main[0] = s.now
+
+        asyncio.run(timed_main())
+        # asyncio.run() finalizes the async generators that are still open and waits for them
+        if rounds_info:
+            rounds_info[-1]['loop_shutdown_took'] = s.now - t_main[0]
 
 
 def async_server_codes():
